@@ -7,6 +7,12 @@ use std::time::Instant;
 
 pub const VERIF_DIR: &str = "/verif";
 
+/// Where evidence/ and replays/ are written. Always /verif for the registered checks; the
+/// seeded-change evaluation (tools/seedeval.sh) redirects it so that it never clobbers evidence.
+pub fn out_dir() -> String {
+    std::env::var("SEMVER_MC_OUT").unwrap_or_else(|_| VERIF_DIR.to_string())
+}
+
 #[derive(Clone, Debug)]
 pub struct Viol {
     pub clause: String,
@@ -240,7 +246,7 @@ pub fn finish(
         }
     }
     // unlisted: verify by replay twice, write replay file, print
-    let dir = format!("{}/replays/{}", VERIF_DIR, sink.prop);
+    let dir = format!("{}/replays/{}", out_dir(), sink.prop);
     let mut printed = 0;
     let max_print = 25;
     for v in &unlisted {
@@ -351,8 +357,8 @@ pub fn finish(
         "wall_s": (wall * 1000.0).round() / 1000.0,
         "violations": n_unlisted,
     });
-    let _ = std::fs::create_dir_all(format!("{}/evidence", VERIF_DIR));
-    let path = format!("{}/evidence/{}.json", VERIF_DIR, sink.prop);
+    let _ = std::fs::create_dir_all(format!("{}/evidence", out_dir()));
+    let path = format!("{}/evidence/{}.json", out_dir(), sink.prop);
     let tmp = format!("{}.tmp", path);
     std::fs::write(&tmp, serde_json::to_string_pretty(&doc).unwrap()).expect("write evidence");
     std::fs::rename(&tmp, &path).expect("rename evidence");
